@@ -12,6 +12,7 @@ import SkNet.Lemmas.LinOpExpr
 import SkNet.Lemmas.Convert
 import SkNet.Lemmas.ConvertCsr
 import SkNet.Lemmas.LinOpType
+import SkNet.Lemmas.LinOpProg
 
 namespace SkNet.C15
 open SkNet SkNet.LinOp SkNet.Convert
@@ -115,6 +116,36 @@ theorem normalizer_negative_regularization_pinned_wrong :
       ∧ (OpExpr.normalizer ⟨1, 2, [[2, 2]]⟩ (-2)).denote.mulVec [1, 0] = [1/2]
       ∧ ((OpExpr.normalizer ⟨1, 2, [[2, 2]]⟩ (-2)).eval.toOption.bind fun o => (o.dot [1, 0]).toOption) = some [1/2] := by
   decide +kernel
+
+/-! ## operator objects used several times: operands are values -/
+
+/-- **An operation does not change its operands.** In the model operators are values: running further statements of a
+program (each may use any operator bound before: `a + b`, then `a - b`, `a.T`, `2 * a` …) leaves every operator
+already bound exactly as it was; the environment only grows, by one operator per statement. This is what the code
+must refine (the harness re-evaluates the operands after every operation against their own denotation; an in-place
+update such as `low_rank_tuples +=` in `SparseLR.__add__`, or CoNeighbor's in-place arithmetic F16i, departs from it). -/
+theorem prog_run_prefix (ss : List Stmt) (env env' : List Op) (h : Prog.run ss env = .ok env') :
+    ∃ rest, env' = env ++ rest ∧ rest.length = ss.length := Prog.run_prefix ss env env' h
+
+/-- **A program (DAG) is worth its unfolded trees**: every operator bound by a program run from the empty environment
+is applied as the dense matrix denoted by the expression tree obtained by unfolding the statements — however many
+times its operands are used elsewhere in the program. -/
+theorem prog_run_denote (ss : List Stmt) (env : List Op) (h : Prog.run ss [] = .ok env) :
+    ∃ trees, Prog.unfold ss [] = some trees ∧ trees.length = env.length ∧
+      ∀ (i : Nat) (t : OpExpr) (o : Op), trees[i]? = some t → env[i]? = some o →
+        Mat.Eqv o.dense t.denote ∧ ∀ v y, o.dot v = .ok y → y = t.denote.mulVec v := by
+  obtain ⟨trees, hu, hr⟩ := Prog.run_unfold ss [] [] env EnvRel.nil h
+  refine ⟨trees, hu, hr.1, fun i t o ht ho => ?_⟩
+  have he := hr.2 i t o ht ho
+  exact ⟨denote_op t o he, fun v y hy => denote_op_dot t o he v y hy⟩
+
+/-- non-vacuity: `a = SparseLR(S, [(x, y)])`, `b = Regularizer(A, 1)`, then `a + b`, `a - b`, `a.T` on the same `a` -/
+def exampleProg : List Stmt :=
+  [.leaf (.slr ⟨2, 2, [[1, 2], [0, 0]]⟩ [([1, -1], [1, 2])]), .leaf (.regularizer ⟨2, 2, [[0, 1], [0, 0]]⟩ 1),
+   .add 0 1, .sub 0 1, .transpose 0]
+
+example : ((Prog.run exampleProg []).toOption.map fun env => env.map fun o => (o.dot [1, 1]).toOption)
+    = some [some [6, -3], some [2, 1], some [8, -2], some [4, -4], some [1, 2]] := by decide +kernel
 
 /-! ## one operator object used twice (finding F16i, recorded and not repaired) -/
 
